@@ -304,7 +304,11 @@ func (p *service) processSubscribe(msg *message.SubscribeMessage) error {
 	for i, t := range topics {
 		rqos, err := p.topicsMgr.Subscribe(t, qos[i], &p.onpub)
 		if err != nil {
-			return err
+			// The subscription is refused with return code 0x80 (MQTT-3.9.3-2); the
+			// request must still be acknowledged (MQTT-3.8.4-1).
+			log.Warningf("(%s) Subscribing topic %q failed: %v", p.cid(), string(t), err)
+			retcodes = append(retcodes, message.QosFailure)
+			continue
 		}
 		p.sess.AddTopic(string(t), qos[i])
 
